@@ -35,7 +35,8 @@ pub struct Cfg {
     pub exhaustive: bool,
     pub empties: bool,
     pub strip: Option<String>,
-    pub krate: Option<(String, String)>,
+    /// (product name, product version, separate crate version)
+    pub krate: Option<(String, String, Option<String>)>,
 }
 
 impl Cfg {
@@ -44,8 +45,11 @@ impl Cfg {
         if let Some(s) = &self.strip {
             v.push(format!("--strip={}", s));
         }
-        if let Some((n, ver)) = &self.krate {
-            v.push(format!("--crate={}:{}", n, ver));
+        if let Some((n, ver, cv)) = &self.krate {
+            // the library equivalent of the tool's flags: the crate gets the crate version (default: the
+            // product version), endpoint metadata the product version
+            v.push(format!("--crate={}:{}", n, cv.as_ref().unwrap_or(ver)));
+            v.push(format!("--version={}", ver));
         }
         v
     }
@@ -54,9 +58,12 @@ impl Cfg {
         if let Some(s) = &self.strip {
             v.push(format!("--stripPrefix={}", s));
         }
-        if let Some((n, ver)) = &self.krate {
+        if let Some((n, ver, cv)) = &self.krate {
             v.push(format!("--productName={}", n));
             v.push(format!("--productVersion={}", ver));
+            if let Some(cv) = cv {
+                v.push(format!("--crateVersion={}", cv));
+            }
         }
         v
     }
@@ -76,7 +83,8 @@ pub fn gen_main(args: &[String]) -> i32 {
         } else if let Some(v) = a.strip_prefix("--crate=") {
             let (n, ver) = v.split_once(':').unwrap();
             c.build_crate(n, ver);
-            c.version(ver.to_string());
+        } else if let Some(v) = a.strip_prefix("--version=") {
+            c.version(v.to_string());
         }
     }
     match c.generate_files(ir, out) {
@@ -229,7 +237,7 @@ pub fn cases(seed: u64, tier: Tier) -> Cases {
     }
     let fixed: Vec<(&str, Value)> = vec![("verif.json", serde_json::from_str(verifgen::IR_SRC).unwrap()), ("test-ir.json", serde_json::from_str(&std::fs::read_to_string("/repo/conjure-test/test-ir.json").unwrap_or_else(|_| "{\"version\":1,\"errors\":[],\"types\":[],\"services\":[],\"extensions\":{}}".into())).unwrap())];
     let cfgs = |rng: &mut Rng, pkg: &str| -> Cfg {
-        Cfg { exhaustive: rng.chance(1, 2), empties: rng.chance(1, 2), strip: match rng.below(3) { 0 => None, 1 => Some(pkg.to_string()), _ => Some(pkg.rsplit_once('.').map(|x| x.0.to_string()).unwrap_or_else(|| pkg.to_string())) }, krate: if rng.chance(1, 4) { Some(("my-product".to_string(), "1.2.3".to_string())) } else { None } }
+        Cfg { exhaustive: rng.chance(1, 2), empties: rng.chance(1, 2), strip: match rng.below(3) { 0 => None, 1 => Some(pkg.to_string()), _ => Some(pkg.rsplit_once('.').map(|x| x.0.to_string()).unwrap_or_else(|| pkg.to_string())) }, krate: match rng.below(6) { 0 => Some(("my-product".to_string(), "1.2.3".to_string(), None)), 1 => Some(("my-product".to_string(), "1.2.3".to_string(), Some("9.9.9-rc1".to_string()))), _ => None } }
     };
     let mut n = 0;
     for (name, ir) in &fixed {
